@@ -295,7 +295,25 @@ let is_heap cap = abs cap > 2
 
 type rec_ = { outcome : string; dval : string; caps : int array; lens : int array; live : int; words : int; flags : int }
 
+(* scr la lb => ok reserved needed: the words mul::memory_requirement_exact reserves = the regenerated formula, and
+   they suffice (VERDICT); the smallest amount that works = the demand of the allocation plans of ScratchModel.v
+   and the offset machine runs with that amount and fails with one word less (FIDELITY) *)
+let judge_scr args got =
+  match args, got with
+  | [ la; lb ], [ "ok"; reserved; needed ] ->
+      let la = zi (usz la) and lb = zi (usz lb) in
+      let reserved = usz reserved and needed = usz needed in
+      let want_r = Zar.to_int (scratch_reserved la lb) and want_d = Zar.to_int (scratch_demand la lb) in
+      if reserved <> want_r then fail (Printf.sprintf "reserves %d words, memory_requirement formula gives %d" reserved want_r)
+      else if needed > reserved then fail (Printf.sprintf "needs %d words, reserves %d" needed reserved)
+      else
+        let same = needed = want_d && scratch_run la lb (zi want_d) && (want_d = 0 || not (scratch_run la lb (zi (want_d - 1)))) in
+        pass ~nt:(want_d > 0) ~extra:(Printf.sprintf "asis=%s cls=scratch path=%s" (if same then "same" else "diff")
+                 (if want_r = 0 then "scr-simple" else if Zar.to_int (Zar.min la lb) <= 192 then "scr-karatsuba" else "scr-toom3")) ()
+  | _ -> fail ("scratch probe completes: " ^ String.concat " " got)
+
 let judge op args got =
+  if op = "scr" then judge_scr args got else
   if op <> "hist" then fail "unknown-op" else
   match got with
   | "ok" :: rest ->
